@@ -1,10 +1,137 @@
 import Driver.Util
-open Lean Driver
+import Driver.Img
+import GinjaxVerif.Model.Conv
+open Lean Driver GinjaxVerif
 
 namespace Driver.C04
 
-def handle (op : String) (_j : Json) : R Json := do
+structure BankArr (d : Nat) where
+  lead0 : Nat
+  lead1 : Nat
+  spatial : List Nat
+  k : Nat
+  bank : Bank Int d
+
+/-- parse `{"shape":[B, C, spatial…, d…], "data":[…]}` -/
+def parseBank (d : Nat) (j : Json) : R (BankArr d) := do
+  let shape ← listF asNat j "shape"
+  let data ← listF asInt j "data"
+  if shape.length < d + 2 then throw "bank shape too short"
+  let spatial := (shape.drop 2).take d
+  let tens := shape.drop (2 + d)
+  if tens.any (· ≠ d) then throw "tensor axes must have extent d"
+  if data.length ≠ shape.foldl (· * ·) 1 then throw "data length does not match shape"
+  let arr := data.toArray
+  pure { lead0 := shape.getD 0 0, lead1 := shape.getD 1 0, spatial := spatial, k := tens.length,
+         bank := fun b c y n =>
+           if (fnToList y).zip spatial |>.all (fun (v, s) => decide (0 ≤ v ∧ v < (s : Int))) then
+             arr.getD (ravelIdx shape ([b, c] ++ (fnToList y).map Int.toNat ++ n.map (·.val))) 0
+           else 0 }
+
+def bankToJson {d : Nat} (B C : Nat) (dims : List Nat) (k : Nat) (bank : Bank Int d) : Json :=
+  let tens := List.replicate k d
+  let vals := (List.range B).flatMap (fun b => (List.range C).flatMap (fun c =>
+    (boxIdx dims).flatMap (fun y => (boxIdx tens).map (fun n =>
+      bank b c (listToFn d 0 (y.map Int.ofNat))
+        (n.filterMap (fun a => if h : a < d then some (⟨a, h⟩ : Fin d) else none))))))
+  Json.mkObj [("shape", jList jNat ([B, C] ++ dims ++ tens)), ("data", jList jInt vals)]
+
+def parseMode (j : Json) : R PadMode := do
+  match j with
+  | .null => pure PadMode.none
+  | .str "TORUS" => pure PadMode.torus
+  | .str "SAME" => pure PadMode.same
+  | .str "VALID" => pure PadMode.valid
+  | .str s => throw s!"unknown padding mode {s}"
+  | .arr _ => do
+    let ps ← asList (fun p => do
+      let l ← asList asNat p
+      match l with
+      | [a, b] => pure (a, b)
+      | _ => throw "padding pair expected") j
+    pure (PadMode.explicit ps)
+  | v => do let p ← asNat v; pure (PadMode.int p)
+
+def getCfg (d : Nat) (j : Json) (img flt : BankArr d) : R (ConvCfg d) := do
+  let mode ← (match optField j "padding" with | none => pure PadMode.none | some v => parseMode v)
+  let torus ← listF asBool j "torus"
+  let stride ← listF asNat j "stride"
+  let rd ← listF asNat j "rd"
+  let ld ← listF asNat j "ld"
+  if torus.length ≠ d ∨ stride.length ≠ d ∨ rd.length ≠ d ∨ ld.length ≠ d then throw "per-axis options must have length d"
+  if !(d == 2 || d == 3) then throw "D must be 2 or 3"
+  if img.lead1 ≠ flt.lead1 then throw "in_channels mismatch"
+  match dispatch mode (listToFn d false torus) (listToFn d 0 img.spatial) (listToFn d 0 flt.spatial)
+      (listToFn d 1 stride) (listToFn d 1 rd) (listToFn d 1 ld) with
+  | none => throw "rejected by the padding dispatch"
+  | some ax => pure { ax := ax, inC := img.lead1, outC := flt.lead0, kI := img.k, kF := flt.k }
+
+def handle (op : String) (j : Json) : R Json := do
   match op with
+  | "c04.conv" =>
+    let d ← natF j "d"
+    let img ← field j "image" >>= parseBank d
+    let flt ← field j "filter" >>= parseBank d
+    let cfg ← getCfg d j img flt
+    let which ← strF j "which"
+    let dims := fnToList cfg.outDims
+    match which with
+    | "spec" => pure (bankToJson img.lead0 flt.lead0 dims (cfg.kI + cfg.kF) (convSpec cfg img.bank flt.bank))
+    | "impl" => pure (bankToJson img.lead0 flt.lead0 dims (cfg.kI + cfg.kF) (convImpl cfg img.bank flt.bank))
+    | "contract_spec" =>
+      if cfg.kF < cfg.kI then throw "filter order smaller than image order"
+      pure (bankToJson img.lead0 flt.lead0 dims (cfg.kF - cfg.kI) (convContractSpec cfg img.bank flt.bank))
+    | "contract_impl" =>
+      if cfg.kF < cfg.kI then throw "filter order smaller than image order"
+      pure (bankToJson img.lead0 flt.lead0 dims (cfg.kF - cfg.kI) (convContractImpl cfg img.bank flt.bank))
+    | _ => throw "which?"
+  | "c04.dispatch" =>
+    let d ← natF j "d"
+    let mode ← (match optField j "padding" with | none => pure PadMode.none | some v => parseMode v)
+    let torus ← listF asBool j "torus"
+    let N ← listF asNat j "N"
+    let M ← listF asNat j "M"
+    let stride ← listF asNat j "stride"
+    let rd ← listF asNat j "rd"
+    let ld ← listF asNat j "ld"
+    match dispatch mode (listToFn d false torus) (listToFn d 0 N) (listToFn d 0 M)
+        (listToFn d 1 stride) (listToFn d 1 rd) (listToFn d 1 ld) with
+    | none => throw "rejected by the padding dispatch"
+    | some ax => pure (jList (fun (o : AxisOpt) => Json.mkObj [("w", jNat o.w), ("lo", jNat o.lo), ("hi", jNat o.hi), ("out", jNat o.outLen)]) (fnToList ax))
+  | "c04.xla" =>
+    -- lhs {"shape":[B, spatial…, C]}, rhs {"shape":[spatial…, I, O]}, explicit per-axis options
+    let d ← natF j "d"
+    let G ← natF j "G"
+    let lshape ← (field j "lhs" >>= fun l => listF asNat l "shape")
+    let ldata ← (field j "lhs" >>= fun l => listF asInt l "data")
+    let rshape ← (field j "rhs" >>= fun l => listF asNat l "shape")
+    let rdata ← (field j "rhs" >>= fun l => listF asInt l "data")
+    let lo ← listF asNat j "lo"
+    let hi ← listF asNat j "hi"
+    let stride ← listF asNat j "stride"
+    let rd ← listF asNat j "rd"
+    let ld ← listF asNat j "ld"
+    let B := lshape.getD 0 0
+    let N := (lshape.drop 1).take d
+    let C := lshape.getD (d + 1) 0
+    let M := rshape.take d
+    let I := rshape.getD d 0
+    let O := rshape.getD (d + 1) 0
+    if C ≠ G * I ∨ G = 0 ∨ O % G ≠ 0 then throw "channel counts inconsistent with feature_group_count"
+    let la := ldata.toArray
+    let ra := rdata.toArray
+    let ax : Fin d → AxisOpt := fun j =>
+      { N := N.getD j.val 0, M := M.getD j.val 0, w := 0, lo := lo.getD j.val 0, hi := hi.getD j.val 0,
+        stride := stride.getD j.val 1, rd := rd.getD j.val 1, ld := ld.getD j.val 1 }
+    let lhs : Nat → Pix d → Nat → Int := fun b y c =>
+      la.getD (ravelIdx lshape ([b] ++ (fnToList y).map Int.toNat ++ [c])) 0
+    let rhs : Pix d → Nat → Nat → Int := fun a i o =>
+      ra.getD (ravelIdx rshape ((fnToList a).map Int.toNat ++ [i, o])) 0
+    let out := xlaConv ax I O G lhs rhs
+    let dims := fnToList (fun j => (ax j).outLen)
+    let vals := (List.range B).flatMap (fun b => (boxIdx dims).flatMap (fun y => (List.range O).map (fun o =>
+      out b (listToFn d 0 (y.map Int.ofNat)) o)))
+    pure (Json.mkObj [("shape", jList jNat ([B] ++ dims ++ [O])), ("data", jList jInt vals)])
   | _ => throw s!"unknown op {op}"
 
 end Driver.C04
